@@ -109,6 +109,10 @@ def reg_task(task):
         F._contracts.clear(); F._contracts.update(saved[2])
         F._contract_interfaces.clear(); F._contract_interfaces.update(saved[3])
         F.opcode_aliases.clear(); F.opcode_aliases.update(saved[4])
+    for v_ in tsh.reentrancy_probes():      # callbacks acting on the registries / on their tape while a run is in progress (once per task)
+        stats['direct-fail'] += 1
+        viol.append(v_)
+    stats['reentrancy-probes'] += 1
     try:
         for it in range(n):
             reset()
